@@ -16,6 +16,7 @@ import vlib
 from vlib import log
 
 SPECD = os.path.join(vlib.SPEC, "bridge")
+os.environ["DIAG"] = "1"     # MetricsBridgeTrace.tla: keep the reasons of a rejected readout (register 2)
 MB_ACTIONS = ["UCall", "UApply", "URet", "RStart", "RCellAtomic", "REnd"]
 
 
@@ -224,7 +225,6 @@ def run_recorded(chk, nruns, seed, tag="t", only=None, repeat=1):
             key="C20:trace")
 
     stats = {}
-    os.environ["DIAG"] = "1"     # MetricsBridgeTrace: keep the reasons of a rejected readout
     # ~6 runs (about 2000 events) per TLC invocation
     acc = vlib.validate_scenarios(SPECD, "MetricsBridgeTrace", "MetricsBridgeTrace.cfg", tp, mp, on_reject,
                                   chunk=6, jobs=max(2, vlib.TLC_WORKERS), chunk_timeout=600, one_timeout=600, stats=stats)
